@@ -623,7 +623,7 @@ def judge_c11(T):
             d2 = _cmp(r1, m1.ref.rho)
             if d2 > TOL:
                 V.append(_viol("C11", "su2", T, "mismatch", f"max|rho_impl-rho_ref|={d2:.3e}"))
-    if a[0] == "measure" and "mzi_phi" in getattr(m0, "tags", {}) and res.calls:
+    if a[0] == "measure" and "mzi_phi" in getattr(m0, "tags", {}) and not m0.tags.get("mzi_dirty") and res.calls:
         phi = m0.tags["mzi_phi"]
         mode = a[2][0]
         c, s_ = np.cos(phi / 2) ** 2, np.sin(phi / 2) ** 2
